@@ -119,6 +119,9 @@ class FakeTransport(asyncio.Transport):
         self._closing = False
 
     def write(self, data):
+        # what asyncio's own transports do (selector_events._SelectorSocketTransport.write, proactor, sslproto):
+        if not isinstance(data, (bytes, bytearray, memoryview)):
+            raise TypeError(f"data argument must be a bytes-like object, not {type(data).__name__!r}")
         self.chunks.append(bytes(data))
 
     def is_closing(self):
